@@ -35,21 +35,38 @@ def run_c06(res):
     events = 0
     dist = {"invocations": {}, "with_failures": 0, "lock_events": 0}
     for i in range(n):
-        shape, P = par.gen_project(r, r.choice(["fan2", "diamond", "mixed", "fan2"]))
-        fail = r.random() < 0.3
-        if fail:
-            P = par.with_failures(r, P, 1)
-            dist["with_failures"] += 1
-        k = r.randint(2, 5)
-        names = [x for x in P if x != "all"]
-        tl = []
-        for _ in range(k):
-            cmd = r.choice(["redo", "redo-ifchange", "redo-ifchange"])
-            ts = ["all"] if r.random() < 0.5 else r.sample(names, min(len(names), r.randint(1, 3)))
-            tl.append((cmd, ts))
-        jl = [r.choice([1, 2, 4]) for _ in range(k)]
+        oob = (i % 4 == 3)
+        if oob:
+            # rebuild after a source edit below a checksummed target: the contended targets go through
+            # redo-unlocked (the parent keeps the lock while a child process runs the script)
+            shape = "oob-rebuild"
+            P, km = par_check.oob_project(r)
+            fail = False
+            k = r.randint(2, 3)
+            tl = []
+            for _ in range(k):
+                ts = r.choice([["top"], ["m0"], ["m0", "m1"], ["all"], ["m1", "top"]])
+                tl.append(("redo-ifchange", ts))
+            jl = [r.choice([1, 2]) for _ in range(k)]
+            dist["oob_rebuild"] = dist.get("oob_rebuild", 0) + 1
+            x = par_check.run_multi(bindir, r, P, k, jl, tl, log=False, prepare=par_check.oob_prepare(r))
+            dist["forced_events"] = dist.get("forced_events", 0) + x.get("forced", 0)
+        else:
+            shape, P = par.gen_project(r, r.choice(["fan2", "diamond", "mixed", "fan2"]))
+            fail = r.random() < 0.3
+            if fail:
+                P = par.with_failures(r, P, 1)
+                dist["with_failures"] += 1
+            k = r.randint(2, 5)
+            names = [x for x in P if x != "all"]
+            tl = []
+            for _ in range(k):
+                cmd = r.choice(["redo", "redo-ifchange", "redo-ifchange"])
+                ts = ["all"] if r.random() < 0.5 else r.sample(names, min(len(names), r.randint(1, 3)))
+                tl.append((cmd, ts))
+            jl = [r.choice([1, 2, 4]) for _ in range(k)]
+            x = par_check.run_multi(bindir, r, P, k, jl, tl, log=r.random() < 0.3)
         dist["invocations"][k] = dist["invocations"].get(k, 0) + 1
-        x = par_check.run_multi(bindir, r, P, k, jl, tl, log=r.random() < 0.3)
         case = {"shape": shape, "targets": len(P), "invocations": [" ".join([c] + ts) for c, ts in tl], "jobs": jl, "failing_script": fail}
         if len(samples) < 3:
             samples.append(dict(case, lock_trace=x["locks"]))
@@ -68,7 +85,7 @@ def run_c06(res):
     dist["lock_events"] = events
     finish(res, "C06", proof, {
         "evaluations": n, "distinct_nontrivial": n,
-        "rule": "2..5 top-level invocations (redo / redo-ifchange, -j1/2/4, overlapping target sets, some with a failing script, some with log capture) started together on one project; every lock/job event of every process is replayed through the extracted lock-protocol model; work sections written by the scripts themselves are checked for overlap per target; non-trivial = every run (at least two invocations contend)",
+        "rule": "2..5 top-level invocations (redo / redo-ifchange, -j1/2/4, overlapping target sets, some with a failing script, some with log capture) started together on one project; every fourth run is a REBUILD after a source edit below a checksummed target, so that the contended targets are built through redo-unlocked; every lock/job event of every process is replayed through the extracted lock-protocol model; work sections written by the scripts themselves are checked for overlap per target; non-trivial = every run (at least two invocations contend)",
         "samples": samples, "input_distribution": dist, "traces_validated_against_impl": n}, viol)
     res.assumptions = ["A-FCNTL: the kernel grants a write lock on a byte to one process at a time and drops it when the process ends",
                        "killing only a parent redo with SIGKILL while its script lives frees the lock: outside the property as read here (stated limit)"]
